@@ -164,11 +164,11 @@ pub fn run_case(c: &Case, drv: &mut Drv) -> Outcome {
         // ends are increasing, so the complete records are a prefix
         expected.truncate(keep);
     }
-    let got = raindb::verif::log_read_all(dynfs.clone(), path);
+    let got = raindb::verif::log_read_all_with_status(dynfs.clone(), path);
     let mut oracle_fail = None;
-    let (got_recs, got_err) = match got {
-        Err(e) => (vec![], Some(format!("LogReader::new failed: {e}"))),
-        Ok((r, e)) => (r, e),
+    let (got_recs, got_err, got_clean) = match got {
+        Err(e) => (vec![], Some(format!("LogReader::new failed: {e}")), false),
+        Ok((r, e, c)) => (r, e, c),
     };
     if let Some(e) = &got_err {
         oracle_fail = Some(format!("reader returned a hard error: {e}"));
@@ -183,9 +183,36 @@ pub fn run_case(c: &Case, drv: &mut Drv) -> Outcome {
             expected.get(pos).map(|r| r.len())
         ));
     }
+    // oracle for the "may this log be appended to" status: a file cut inside a record, or holding
+    // the fragments of a record its writer never finished, must not be reported clean; a complete
+    // file must be
+    if oracle_fail.is_none() {
+        let must_be_dirty = c.cut.is_some() && false; // decided below from the byte structure
+        let _ = must_be_dirty;
+        if c.cut.is_none() {
+            let complete_len = ends.iter().take(expected.len()).last().copied().unwrap_or(0) as usize;
+            // zero padding after the last complete record is fine; anything else is a torn tail
+            let tail_is_padding = file.len() >= complete_len && file[complete_len..].iter().all(|b| *b == 0) && file.len() - complete_len < H;
+            let whole = c.trunc.is_none() || tail_is_padding;
+            if whole && !got_clean {
+                oracle_fail = Some("a completely written log is reported as not cleanly readable (it would never be reused)".into());
+            }
+            if !whole && got_clean && file.len() > complete_len && !tail_is_padding {
+                oracle_fail = Some(format!("a log cut inside a record (complete records end at {complete_len}, file has {} bytes) is reported as cleanly read: recovery would append behind the torn tail", file.len()));
+            }
+        }
+    }
     // model reader on the same bytes
     if model_fail.is_none() {
-        let ans = drv.ask(&format!("log.readall {}", hex(&file)));
+        let ans_full = drv.ask(&format!("log.readalls {}", hex(&file)));
+        let (status, ans) = match ans_full.split_once(' ') {
+            Some((a, b)) => (a.to_string(), b.to_string()),
+            None => (String::new(), ans_full.clone()),
+        };
+        let ans = if ans_full == "no-model" { ans_full.clone() } else { ans };
+        if ans_full != "no-model" && got_err.is_none() && (status == "clean") != got_clean {
+            model_fail = Some(format!("model says the log is {status}, implementation says clean={got_clean}"));
+        }
         let toks: Vec<&str> = ans.split(' ').collect();
         let n: Option<usize> = toks.first().and_then(|t| t.parse().ok());
         if ans == "no-model" {
